@@ -90,6 +90,10 @@ pub mod utils;
 #[cfg(test)]
 mod mock;
 
+/// Verification seam (re-exports and thin wrappers of crate-private items, no logic).
+#[cfg(litep2p_verif)]
+pub mod verif;
+
 /// Public result type used by the crate.
 pub type Result<T> = std::result::Result<T, error::Error>;
 
